@@ -721,7 +721,7 @@ SEMANTIC_INVALID = [
     ("bad_arg_type", "service X { void f(1: Nope a) }\n"),
     ("bad_exception_type", "service X { void f() throws (1: Nope e) }\n"),
     ("bad_op_type", "scope Sc { op: Nope }\n"),
-    ("dup_prefix_variable", "struct E {}\nscope Sc prefix a.{x}.{x} { op: E }\n"),
+    ("dup_prefix_variable", "struct E {}\nscope Sc prefix a.{zone}.{zone} { op: E }\n"),
     ("unterminated_struct", "struct S { 1: i32 a\n"),
     ("unterminated_service", "service X { void f()\n"),
     ("unterminated_scope", "struct E {}\nscope Sc { op: E\n"),
